@@ -238,6 +238,10 @@ func main() {
 	mode := flag.String("mode", "", "deny: the cases of DenyFilters.tla through the real ipaccess / payloadlimit / faultinject filters (deny.go)")
 	workers := flag.Int("workers", 8, "mode deny: listeners driven in parallel")
 	flag.Parse()
+	if *mode == "pub" {
+		pubMain(*cases, *out)
+		return
+	}
 	if *mode == "deny" {
 		denyMain(*cases, *out, *res, *shard, *shards, *workers)
 		return
